@@ -26,6 +26,7 @@ func TestC26(t *testing.T) {
 		prof := replayProfile()
 		prof["redeemCheck"] = 12
 		h := newHistory(t, wo, prof, sim.BlockOpts{MaxTxs: 8})
+		defer queryLoad(t, h, 0)()
 		type rec struct {
 			firstCode uint32
 			charged   bool
